@@ -1254,10 +1254,13 @@ def check_mailbox(ctx, R, classes):
                 badn, nn = None, 0
                 bare = None
                 direct = None
+                skipped = None
                 for st, status in ctx.paths(nfn, cls):
                     evs = st.events
                     stores = [i for i, e in enumerate(evs) if e.kind == 'ST' and e.a in W and e.c == 'assign' and not e.x.get('empty')
                               and e.b and 'x' in e.b]
+                    if not stores and not is_failure(evs, status) and nname == 'update':
+                        skipped = evs       # (g) an arrival that is not put into the slot is lost: the newest element must win
                     if not stores or is_failure(evs, status):
                         continue
                     nn += 1
@@ -1286,6 +1289,10 @@ def check_mailbox(ctx, R, classes):
                 R.ob('MAILBOX', ctx.construct(nfn), 'notify-on-every-store', badn is None and nn > 0,
                      'a path stores a new element into the slot without notifying the forwarding coroutine: it can sleep for '
                      'ever on an occupied slot', ctx.where(nfn, nfn.node.lineno), fmt_path(badn) if badn else None, nn)
+                if nname == 'update':
+                    R.ob('MAILBOX', ctx.construct(nfn), 'stores-every-arrival', skipped is None and nn > 0,
+                         'a normal path of update() does not put the arriving element into the slot: that element is lost although it '
+                         'is the newest one', ctx.where(nfn, nfn.node.lineno), fmt_path(skipped) if skipped else None, nn)
                 R.ob('MAILBOX', ctx.construct(nfn), 'notify-via-loop', direct is None,
                      'the condition is notified directly from update(): when update() runs in another thread than the node\'s loop '
                      'the forwarding coroutine is not woken (tornado conditions are not thread-safe; use loop.add_callback)',
@@ -1294,6 +1301,24 @@ def check_mailbox(ctx, R, classes):
                      'the bare element is stored in the slot whose emptiness the forwarding coroutine tests: an element equal '
                      'to the empty marker (None / falsy) is indistinguishable from "no element"',
                      ctx.where(nfn, bare[0].line) if bare else None, fmt_path(bare[1]) if bare else None)
+            # (h) only the forwarder empties the slot: any other method that resets it (a cleanup hook, stop(), ...) drops an
+            # element that is waiting to be delivered
+            for other in entries:
+                if other is fn or other.name in ('__init__',):
+                    continue
+                hit = None
+                for st, status in ctx.paths(other, cls):
+                    for e in st.events:
+                        if e.kind == 'ST' and e.a in tested_fields | (W & {f_ for f_ in W if f_ in tested_fields}) and (
+                                e.c == 'reset' or (e.x or {}).get('empty')):
+                            hit = (e, st.events)
+                    for e in st.events:
+                        if e.kind == 'TK' and e.a in tested_fields and other.name not in notifiers:
+                            hit = (e, st.events)
+                if hit is not None or other.name in notifiers:
+                    R.ob('MAILBOX', ctx.construct(other), 'only-forwarder-empties', hit is None,
+                         '%s empties the message slot: an element that is waiting for the forwarding coroutine is dropped' % other.name,
+                         ctx.where(other, hit[0].line) if hit else None, fmt_path(hit[1]) if hit else None)
             R.ob('MAILBOX', con, 'consume-on-read', bad_b is None and n > 0,
                  'the message slot is not emptied when taken: a second queued notification re-delivers the same element',
                  ctx.where(fn, fn.node.lineno), fmt_path(bad_b) if bad_b else None, n)
@@ -1489,6 +1514,15 @@ def check_tick_period(ctx, R, classes):
             if pos_sleep < pos_emit or 0 not in r.awaited:
                 bad = bad or 'the cycle sleeps before its emission was awaited'
         R.ob('TICK-PERIOD', con, 'sleep-interval', bad is None and n > 0, bad or 'no cycle found', ctx.where(fn, fn.node.lineno), None, n)
+        # the tick loop never ends: a loop that can be left (a test on node state in its header, a break, a return) stops
+        # emitting for good - what is buffered at that moment, and everything that arrives later, is never emitted
+        ended = None
+        for st, status in ctx.paths(fn, cls):
+            if status in ('next', 'return'):
+                ended = st.events
+        R.ob('TICK-PERIOD', con, 'never-exits', ended is None,
+             'the tick coroutine can terminate (its loop can be left): elements buffered then, and all later ones, are never emitted',
+             ctx.where(fn, fn.node.lineno), fmt_path(ended) if ended else None)
         # the field holds the converted constructor argument and is written nowhere else
         init = cls.find('__init__')
         writers = []
